@@ -116,8 +116,13 @@ def modulo(left: float | int, right: float | int) -> float | int:
     try:
         if isinstance(left, int) and isinstance(right, int):
             return left % right
-        return float(decimal.Decimal(str(left)) % decimal.Decimal(str(right)))
-    except ZeroDivisionError as err:
+        divisor = decimal.Decimal(str(right))
+        remainder = decimal.Decimal(str(left)) % divisor
+        if remainder and (remainder < 0) != (divisor < 0):
+            # The sign of the divisor, as for integers.
+            remainder += divisor
+        return float(remainder)
+    except (ZeroDivisionError, decimal.DivisionByZero, decimal.InvalidOperation) as err:
         raise LiquidTypeError(
             f"can't divide by {right}",
             token=None,
